@@ -33,6 +33,12 @@ func main() {
 	for m := 0; m < r.N(6, 80); m++ {
 		marathon(r, m)
 	}
+	for c := 0; c < r.N(8, 120); c++ {
+		cluster(r, c)
+	}
+	r.Floor("cluster.blocks", 60)
+	r.Floor("cluster.convergences", 10)
+	r.Floor("cluster.catch-ups-over-the-network", 5)
 	r.Floor("marathon.blocks", 60)
 	r.Floor("marathon.blocks-leaving-pool-behind", 5)
 	r.Floor("marathon.follower-restarts", 5)
